@@ -7,7 +7,7 @@ git -C /repo worktree add -q $wt HEAD || exit 2
 cp /repo/Cargo.lock $wt/
 demo=$(ls $d/seed_demo_*.rs | head -1); name=$(basename $demo .rs)
 mkdir -p $wt/tests && cp $demo $wt/tests/
-flags=""; case "$id" in C07-2|C13-2) flags="--release";; esac
+flags=""; case "$id" in C07-2|C13-2|C19-1) flags="--release";; esac
 rf=""; case "$id" in C14-*) rf="--cfg kodama_verif";; esac
 cd $wt
 git apply $d/patch.diff || { echo "$id: patch does not apply"; exit 2; }
